@@ -51,9 +51,20 @@ func c20Dial(c *Ctx) {
 	m.Models["(time.Time).Add"] = func(cl *fold.Call) fold.Val {
 		return fold.Sym{Name: "now+" + intName(cl.Args[1])}
 	}
-	m.Models["(time.Time).Before"] = func(cl *fold.Call) fold.Val {
-		return fold.Bool(cl.M.Atom("timeout-deadline-earlier"))
+	// the only instants compared are now+Timeout and the context's own deadline; one atom says which
+	// is earlier, and the operand order of the comparison decides how it is read (ties are immaterial)
+	earlier := func(cl *fold.Call, x, y fold.Val) fold.Val {
+		xs, ys := fold.Show(x), fold.Show(y)
+		switch {
+		case strings.HasPrefix(xs, "now+") && ys == "ctx-deadline":
+			return fold.Bool(cl.M.Atom("timeout-deadline-earlier"))
+		case xs == "ctx-deadline" && strings.HasPrefix(ys, "now+"):
+			return fold.Bool(!cl.M.Atom("timeout-deadline-earlier"))
+		}
+		return fold.Bool(cl.M.Atom("earlier(" + xs + "," + ys + ")"))
 	}
+	m.Models["(time.Time).Before"] = func(cl *fold.Call) fold.Val { return earlier(cl, cl.Args[0], cl.Args[1]) }
+	m.Models["(time.Time).After"] = func(cl *fold.Call) fold.Val { return earlier(cl, cl.Args[1], cl.Args[0]) }
 	m.Models["invoke:(context.Context).Deadline"] = func(cl *fold.Call) fold.Val {
 		return fold.Tuple{fold.Sym{Name: "ctx-deadline"}, fold.Bool(cl.M.Atom("ctx-has-deadline"))}
 	}
